@@ -9,8 +9,8 @@ from . import ENGINE_VERSION
 from .seeds import digest
 
 VERIF_DIR = os.path.dirname(os.path.dirname(os.path.abspath(__file__)))
-EVIDENCE_DIR = os.path.join(VERIF_DIR, "evidence")
-REPLAY_DIR = os.path.join(VERIF_DIR, "replays")
+EVIDENCE_DIR = os.environ.get("VERIF_EVIDENCE_DIR") or os.path.join(VERIF_DIR, "evidence")
+REPLAY_DIR = os.environ.get("VERIF_REPLAY_DIR") or os.path.join(VERIF_DIR, "replays")
 FINDINGS_FILE = os.path.join(VERIF_DIR, "KNOWN_FINDINGS.txt")
 
 REAL_COMPONENTS = [
